@@ -117,6 +117,56 @@ def grid_clause(model, rep, funcs):
     rep.floor("L.grid", 3, "(three get_indices siblings)")
 
 
+def _sign_eval(e: ast.expr, env: dict):
+    """Evaluate a sign-only predicate on concrete representatives -1/0/+1 (sign abstraction: products and comparisons with 0 depend on signs only)."""
+    if isinstance(e, ast.Constant) and isinstance(e.value, (int, float, bool)):
+        return e.value
+    if isinstance(e, ast.Name):
+        return env.get(e.id)
+    if isinstance(e, ast.UnaryOp):
+        v = _sign_eval(e.operand, env)
+        if v is None:
+            return None
+        if isinstance(e.op, ast.USub):
+            return -v
+        if isinstance(e.op, (ast.Not, ast.Invert)):
+            return (not v) if isinstance(v, bool) else None
+        return None
+    if isinstance(e, ast.BinOp):
+        l, r = _sign_eval(e.left, env), _sign_eval(e.right, env)
+        if l is None or r is None:
+            return None
+        if isinstance(e.op, ast.Mult):
+            return l * r
+        if isinstance(e.op, ast.BitAnd) and isinstance(l, bool) and isinstance(r, bool):
+            return l and r
+        if isinstance(e.op, ast.BitOr) and isinstance(l, bool) and isinstance(r, bool):
+            return l or r
+        if isinstance(e.op, ast.BitXor) and isinstance(l, bool) and isinstance(r, bool):
+            return l != r
+        return None
+    if isinstance(e, ast.BoolOp):
+        vs = [_sign_eval(x, env) for x in e.values]
+        if any(v is None for v in vs):
+            return None
+        return all(vs) if isinstance(e.op, ast.And) else any(vs)
+    if isinstance(e, ast.Compare):
+        left = _sign_eval(e.left, env)
+        for op, c in zip(e.ops, e.comparators):
+            right = _sign_eval(c, env)
+            if left is None or right is None:
+                return None
+            ok = {ast.Lt: left < right, ast.LtE: left <= right, ast.Gt: left > right, ast.GtE: left >= right, ast.Eq: left == right,
+                  ast.NotEq: left != right}.get(type(op))
+            if ok is None:
+                return None
+            if not ok:
+                return False
+            left = right
+        return True
+    return None
+
+
 def dom_mul2(dom):
     return dom.add(dom.sym("k"), dom.sym("k"))
 
@@ -178,17 +228,44 @@ def normals_clause(model, rep, funcs):
         for kind, fn, node, msg in dom.events:
             rep.ob("F", fn.anchor if fn else a, "box-shape scaling and rotation are applied in compatible frames", False, msg, node=node, fn=fn or f,
                    clause="2 normals")
-        # predicate: product of the two signed distances <= 0 (keeps DC: 0 <= 0; even in k)
-        preds = [n for n in walk_no_nested(f.node) if isinstance(n, ast.Compare) and isinstance(n.left, ast.BinOp) and isinstance(n.left.op, ast.Mult)
-                 and "dot" in norm_src(n.left)]
-        for p in preds:
-            ok = len(p.ops) == 1 and isinstance(p.ops[0], ast.LtE) and norm_src(p.comparators[0]) in ("0", "0.0")
-            rep.instance("S13.pred", f.loc(p))
-            rep.ob("S13", a, "keep-predicate is dot0*dot1 <= 0 (non-strict: the zero-frequency bin and bins on a wedge plane are kept; even under k -> -k)",
-                   ok, f"predicate `{norm_src(p)}`", node=p, fn=f, clause="3 predicate")
-        if not preds:
-            rep.ob("S13", a, "keep-predicate on the product of the two signed distances", None, "predicate not found", node=f.node, fn=f,
-                   clause="3 predicate", stmt=f"def {f.name} #pred")
+        # predicate over the two signed distances: it only looks at their signs, so it is decided on the 9 sign pairs {-,0,+}^2 and must equal
+        # "d0 * d1 <= 0" there (keeps DC and bins on a wedge plane; even under k -> -k)
+        dnames = []
+        for node, v in dots:
+            for st in walk_no_nested(f.node):
+                if isinstance(st, ast.Assign) and len(st.targets) == 1 and isinstance(st.targets[0], ast.Name) and any(x is node for x in ast.walk(st.value)):
+                    dnames.append(st.targets[0].id)
+        cands = []
+        if len(dnames) == 2:
+            for st in walk_no_nested(f.node):
+                v_ = st.value if isinstance(st, (ast.Assign, ast.Return)) and getattr(st, "value", None) is not None else None
+                if v_ is None:
+                    continue
+                used = {x.id for x in ast.walk(v_) if isinstance(x, ast.Name)}
+                if set(dnames) <= used and not any(isinstance(x, ast.Call) for x in ast.walk(v_)):
+                    cands.append(v_)
+        if len(cands) == 1:
+            pexpr = cands[0]
+            rep.instance("S13.pred", f.loc(pexpr))
+            wrong = []
+            undec = False
+            for a0 in (-1, 0, 1):
+                for a1 in (-1, 0, 1):
+                    got = _sign_eval(pexpr, {dnames[0]: a0, dnames[1]: a1})
+                    if got is None:
+                        undec = True
+                    elif bool(got) != (a0 * a1 <= 0):
+                        wrong.append((a0, a1, bool(got)))
+            sgn = {-1: "-", 0: "0", 1: "+"}
+            det = f"predicate `{norm_src(pexpr)}`" + ("; differs from d0*d1 <= 0 for sign pairs " + ", ".join(f"({sgn[x]},{sgn[y]})->{'kept' if g else 'dropped'}"
+                                                                                                             for x, y, g in wrong) if wrong else "")
+            if any(x == 0 and y == 0 for x, y, _ in wrong):
+                det += ": the zero-frequency bin is dropped"
+            rep.ob("S13", a, "keep-predicate equals dot0*dot1 <= 0 on every sign pattern (non-strict: the zero-frequency bin and bins on a wedge plane are kept; "
+                   "even under k -> -k)", (False if wrong else (None if undec else True)), det, node=pexpr, fn=f, clause="3 predicate")
+        else:
+            rep.ob("S13", a, "keep-predicate on the product of the two signed distances", None, f"predicate not found ({len(dnames)} distances, {len(cands)} candidate "
+                   "expressions)", node=f.node, fn=f, clause="3 predicate", stmt=f"def {f.name} #pred")
     rep.floor("F.normals", 4, "(four wedge-mask siblings)")
 
 
